@@ -7,7 +7,7 @@ NEW(v)    v = trees.Tree(...)  (fresh node bound to a local access path)
 """
 import ast
 
-from .core import AnalysisError, path, unparse, root_name, walk_own
+from .core import AnalysisError, Unrecognised, path, unparse, root_name, walk_own
 
 
 class Event(object):
@@ -35,10 +35,68 @@ def is_tree_ctor(prog, func, call):
     return c == ('trees', 'Tree.__init__')
 
 
-def link_events(prog, func):
-    """All structural events of `func`, in CFG node order."""
+def mover_helper(prog, g):
+    """Is g a straight-line helper that only re-links nodes given as parameters (e.g. _reattach(node, target))?
+    Returns its own events or None."""
+    if g.cls or g.kwarg or g.vararg or not g.params:
+        return None
+    cfg = g.cfg
+    if any(n.kind in ('iter', 'test') for n in cfg.nodes):
+        return None
+    evs = link_events(prog, g, inline=False)
+    if not evs or any(e.kind == 'OTHER' for e in evs):
+        return None
+    for e in evs:
+        for k in ('x', 'q', 'p'):
+            v = e.__dict__.get(k)
+            if v is not None and not (isinstance(v, ast.Constant) and v.value is None) and root_name(v) not in g.params:
+                return None
+    # nothing else of interest may happen in the helper
+    for n in cfg.eval_nodes():
+        if n.kind == 'stmt' and isinstance(n.ast, (ast.Return,)) and n.ast.value is not None:
+            return None
+    return evs
+
+
+class _Subst(ast.NodeTransformer):
+    def __init__(self, mapping):
+        self.mapping = mapping
+
+    def visit_Name(self, n):
+        if n.id in self.mapping:
+            import copy
+            return copy.deepcopy(self.mapping[n.id])
+        return n
+
+
+def link_events(prog, func, inline=True):
+    """All structural events of `func`, in CFG node order.  Calls to straight-line mover helpers are
+    replaced by the helper's events with the arguments substituted (one level)."""
     cfg = func.cfg
     evs = []
+    if inline:
+        import copy
+        for n in cfg.eval_nodes():
+            if n.kind != 'stmt' or not isinstance(n.ast, ast.Expr) or not isinstance(n.ast.value, ast.Call):
+                continue
+            c = prog.callee(n.ast.value, func)
+            if not c or c == (func.module.name, func.qual):
+                continue
+            g = prog.func(c[0], c[1], required=False)
+            if g is None or g.fq == func.fq:
+                continue
+            hev = mover_helper(prog, g)
+            if not hev or len(n.ast.value.args) != len(g.params) or n.ast.value.keywords:
+                continue
+            mapping = dict(zip(g.params, n.ast.value.args))
+            for e in hev:
+                d = dict((k, v) for k, v in e.__dict__.items() if k not in ('kind', 'node'))
+                for k in ('x', 'q', 'p', 'value'):
+                    if isinstance(d.get(k), ast.AST):
+                        d[k] = _Subst(mapping).visit(copy.deepcopy(d[k]))
+                d['ast'] = n.ast.value
+                d['via'] = g.fq
+                evs.append(Event(e.kind, n.id, **d))
     for n in cfg.eval_nodes():
         if n.kind != 'stmt':
             # loop headers / tests do not contain link events in this code base; verify
@@ -47,7 +105,7 @@ def link_events(prog, func):
                     if isinstance(sub, ast.Call) and isinstance(sub.func, ast.Attribute) \
                             and _children_owner(sub.func.value) is not None \
                             and sub.func.attr in ('append', 'remove', 'insert', 'extend', 'pop', 'clear'):
-                        raise AnalysisError('structural mutation inside a condition/loop header in %s:%d'
+                        raise Unrecognised('structural mutation inside a condition/loop header in %s:%d'
                                             % (func.fq, n.lineno))
             continue
         st = n.ast
@@ -64,7 +122,9 @@ def link_events(prog, func):
                     evs.append(Event('ATT', n.id, q=owner, x=sub.args[1], ast=sub))
                 elif m == 'remove' and len(sub.args) == 1:
                     evs.append(Event('DET', n.id, p=owner, x=sub.args[0], ast=sub))
-                elif m in ('extend', 'pop', 'clear', 'sort', 'reverse'):
+                elif m == 'sort':
+                    evs.append(Event('PERM', n.id, q=owner, value=sub, ast=sub))
+                elif m in ('extend', 'pop', 'clear', 'reverse'):
                     evs.append(Event('OTHER', n.id, q=owner, how=m, ast=sub))
         if isinstance(st, ast.Assign):
             for t in st.targets:
